@@ -27,6 +27,8 @@ P = {
          "partial."),
  "C10": ("Theorems (by computation): every argument-taking built-in pre-loads 'skip ws/comments, expect ( on its channel' on top and 'expect )' at the bottom; every macro keyword has a dispatch arm; ';'-terminated statements pre-load the ';' expectation. Balance of string expressions, datalines triples, label colons over all inputs (incl. every truncation of a sample program) is tested by the oracle.",
          "partial."),
+ "C11": ("The open-code grammar is the Coq function Spec/RefLex.reflex (pure longest-match reader with two bits of carried state, no modes or handlers). Theorems (no axioms) about it: whitespace and ampersand runs are maximal, a C-style comment ends at the first closer, '*' is a comment to the next ';' exactly at statement start. The implementation (debug, release) is compared with the extracted reference on every macro-free input (decided by the extracted predicate macro_free): type, channel, byte offset and payload of every token, kind and offset of every error, the literal buffer; any difference is a violation with the shrunk input.",
+         "partial: lexer = reference on macro-free text is established by execution of the extracted reference against the implementation over structured and exhaustive-pair streams, not by a theorem relating the lexer model to the reference."),
  "C12": ("Theorem C12_empty_statements (no axioms): for every n, the program of n empty statements lexes (release profile) without error into n SEMI tokens + EOF and ends in the initial open-code configuration; its step lemma holds from any open-code state (symbolic execution of the handler + induction). Programs sampled from the whole construct grammar must lex without error and end in the initial configuration (implementation and model, compared byte for byte).",
          "partial (sub-grammar): one production proved, the grammar-wide statement tested."),
  "C13": ("Theorems (no axioms, every state, both profiles): in the argument-value scanner '(' and nested ')' only move the parenthesis counter, ',' is text while the counter is non-zero and ends the argument at zero, ')' ends it only at zero; every argument-taking built-in pre-loads its parentheses. Delimiter, operator, integer-operand and gap positions are tested on sampled grammar programs with recorded positions.",
